@@ -24,8 +24,21 @@ GAP2 = 2.0 ** -(G + 1 + W)        # a class fitness below 1.0 is at most 1 - GAP
 
 I = z3.IntSort()
 B = z3.BoolSort()
-Sat = z3.Function("Sat", I, I, B)
-Raises = z3.Function("Raises", I, I, B)
+NONE_ID = z3.IntVal(-7)
+Sat4 = z3.Function("Sat4", I, I, I, I, B)        # constraint, tree, scope content, locals content
+Raises4 = z3.Function("Raises4", I, I, I, I, B)
+
+
+def Sat(c, t):
+    return Sat4(c, t, NONE_ID, NONE_ID)
+
+
+def Raises(c, t):
+    return Raises4(c, t, NONE_ID, NONE_ID)
+
+
+def _dict_id(d):
+    return NONE_ID if d is None else d.ghost["ident"]
 
 
 def _sn(t):
@@ -77,10 +90,10 @@ def tree(cx, name="individual"):
 
 def fitness_inv(solved: SInt, total: SInt, success) -> list:
     return [
-        ("solved_ge_0", cmp(">=", solved, 0).term),
-        ("solved_le_total", cmp("<=", solved, total).term),
-        ("total_ge_1", cmp(">=", total, 1).term),
-        ("success_iff_all_solved", T(success) == cmp("==", solved, total).term),
+        ("solved_ge_0", T(cmp(">=", solved, 0))),
+        ("solved_le_total", T(cmp("<=", solved, total))),
+        ("total_ge_1", T(cmp(">=", total, 1))),
+        ("success_iff_all_solved", T(success) == T(cmp("==", solved, total))),
     ]
 
 
@@ -120,11 +133,55 @@ class ConstraintFitness_fitness(Contract):
         return None
 
 
+@register
+class ConstraintFitness_copy(Contract):
+    """__copy__ returns a new object with the same verdict and counters (failing trees copied shallowly)"""
+    target = "constraints/fitness.py:ConstraintFitness.__copy__"
+    properties = ("C02", "C07", "C11")
+    float_mode = "real"
+
+    def inputs(self, cx):
+        s = SObj("ConstraintFitness", {}, fresh=False, label="self")
+        s.fields["solved"] = cx.int("solved")
+        s.fields["total"] = cx.int("total")
+        s.fields["success"] = cx.bool("success")
+        s.fields["failing_trees"] = cx.opaque_list(cx.int("nft", lo=0))
+        s.fields["suggestion"] = cx.opaque("Suggestion")
+        return {"self": s}
+
+    def fresh_result(self, cx, a):
+        s = a["self"]
+        o = SObj(s.cls, {}, fresh=True, label="copy")
+        o.fields["solved"] = cx.int("c_solved")
+        o.fields["total"] = cx.int("c_total")
+        o.fields["success"] = cx.bool("c_success")
+        o.fields["failing_trees"] = cx.opaque_list(cx.int("c_nft", lo=0), fresh=True)
+        o.fields["suggestion"] = cx.opaque("Suggestion")
+        return o
+
+    def ensures(self, cx, a, r):
+        s = a["self"]
+        if not isinstance(r, SObj):
+            return [("returns_object", z3.BoolVal(False))]
+        return [
+            ("fresh_object", z3.BoolVal(r is not s and r.fresh)),
+            ("same_solved", cmp("==", r.fields["solved"], s.fields["solved"]).term),
+            ("same_total", cmp("==", r.fields["total"], s.fields["total"]).term),
+            ("same_success", T(r.fields["success"]) == T(s.fields["success"])),
+            ("failing_trees_not_shared", z3.BoolVal(r.fields["failing_trees"] is not s.fields["failing_trees"])),
+        ]
+
+
 def new_constraint_fitness(cx, label="result") -> SObj:
     """result object of the abstract Constraint.fitness contract"""
     o = SObj("ConstraintFitness", {}, fresh=True, label=label)
-    o.fields["solved"] = cx.bvint("r_solved", 0, 2 ** G, named=False)
-    o.fields["total"] = cx.bvint("r_total", 0, 2 ** G, named=False)
+    if "evolution/evaluation.py" in cx.tag:
+        # environment assumption of the evaluator proofs: per-constraint totals are <= 2**G
+        o.fields["solved"] = cx.bvint("r_solved", 0, 2 ** G, named=False)
+        o.fields["total"] = cx.bvint("r_total", 0, 2 ** G, named=False)
+    else:
+        o.fields["solved"] = cx.int("r_solved")
+        o.fields["total"] = cx.int("r_total")
     o.fields["success"] = cx.bool("r_success")
     o.fields["failing_trees"] = cx.opaque_list(cx.int("r_nft", lo=0), fresh=True)
     o.fields["suggestion"] = cx.opaque("Suggestion", maybe_none=z3.BoolVal(False))
@@ -139,14 +196,14 @@ class Constraint_fitness(Contract):
     abstract = True
 
     def may_raise(self, cx, a):
-        return [("Exception", Raises(a["self"].ident, a["tree"].ident))]
+        return [("Exception", Raises4(a["self"].ident, a["tree"].ident, _dict_id(a.get("scope")), _dict_id(a.get("local_variables"))))]
 
     def fresh_result(self, cx, a):
         return new_constraint_fitness(cx)
 
     def ensures(self, cx, a, r):
         out = fitness_inv(r.fields["solved"], r.fields["total"], r.fields["success"])
-        out.append(("success_is_sat", T(r.fields["success"]) == Sat(a["self"].ident, a["tree"].ident)))
+        out.append(("success_is_sat", T(r.fields["success"]) == Sat4(a["self"].ident, a["tree"].ident, _dict_id(a.get("scope")), _dict_id(a.get("local_variables")))))
         return out
 
 
